@@ -189,7 +189,9 @@ def run(res, f, tier):
     ws = ("star", ast_of(lexical.WHITESPACE))
     cm = ast_of(lexical.COMMENT)
     ws_i = [i for i in skips if lexre.equivalent(lx.asts[i], ws)[0]]
-    cm_i = [i for i in skips if lexre.equivalent(lx.asts[i], cm)[0]]
+    # a comment pattern may or may not swallow the line break(s) that end it, but nothing beyond them
+    cm_min = ast_of("//[\\0-\t\x0b\x0c\x0e-\U0010ffff]*")
+    cm_i = [i for i in skips if lexre.included(lx.asts[i], cm)[0] and lexre.included(cm_min, lx.asts[i])[0]]
     ob(len(ws_i) == 1, "C08|whitespace", "one skip pattern must be exactly (Unicode White_Space)*")
     ob(len(cm_i) == 1, "C08|comment", "one skip pattern must be exactly // up to the end of the line plus the line breaks")
     anyc = ("lit", [(0, 0xD7FF), (0xE000, 0x10FFFF)])
